@@ -18,6 +18,9 @@ PROPS = {
     "C29": P("exploration",
              "Each evaluation is one seeded plan: 2-4 client tasks with 2-7 operations each (bit writes, imports, row store/clear, roaring imports, reads, snapshot, cache flush/recalculate, checksum and TopN requests) on one shared fragment plus background snapshot workers, executed under a PCT schedule with 1-6 change points or a random walk, at lock/cond/channel/file-operation granularity; invoke/return events are stamped with the simulator's global event counter and the history (plus a final full-state read) is checked for linearizability against a sequential bit-set model with porcupine; deadlock = clients stuck at quiescence; panic = recovered in the client task or child death.",
              L2_REAL, L2_STUB, extra_assume=["the data-race clause of C29 is not decided by the controlled stage: single-runner scheduling serialises all accesses"]),
+    "C09": P("fault_enumeration",
+             "Each evaluation is one seeded write history (2-25 ops over every fragment write path, forced snapshots, reopen, optional background snapshot workers) executed once while a crash image of the data directory is captured at EVERY intercepted file-system operation boundary (create, open-with-create/truncate, write, rename, remove, truncate; each write(2) of the op log, snapshot file and cache file is a boundary); every image is then opened by a fresh fragment, with and without leftover .snapshotting files, and its logical state must equal the model before or after the operation in flight.",
+             L2_REAL, L2_STUB),
     "C10": P("exploration",
              "Each evaluation is one seeded plan of fragment writes through every path interleaved with checksum requests (which populate the per-block cache the next write must invalidate), snapshots and reopen; oracle: Blocks() equals Blocks() recomputed after InvalidateChecksums(), lists exactly the model's non-empty blocks, equals the checksum list of a twin fragment built from the model contents through another path, and differs in exactly one block after one bit of the twin is flipped.",
              L2_REAL, L2_STUB),
@@ -35,6 +38,8 @@ MAN = {
             "note": "Samples histories (<=75 ops, <=5 rows, <=8 columns concentrated on container and shard edges); trusts the instrumentation overlay and the model in harness/internal/zz_verif_l2_test.go."},
     "C29": {"text": "Seeded search over lock-granularity interleavings of concurrent fragment operations; recorded histories checked for linearizability (porcupine), deadlock and panic.",
             "note": "Histories are short (<=28 ops, 2 rows x 2-3 columns); porcupine timeouts are counted as inconclusive, never reported; data races in the Go memory-model sense are outside what a single-runner simulation can observe (see DESIGN.md C29)."},
+    "C09": {"text": "Per generated history, exhaustive enumeration of crash points at file-system-operation granularity (process-kill model), each recovered by real reopen code and compared with the model; seeded exploration over histories.",
+            "note": "Process-kill model as stated by C09 (completed syscalls persist; no page-cache loss or reordering). bolt-backed attribute stores are outside C09's statement. A write(2) is atomic in the model (boundaries only, no torn single write)."},
     "C10": {"text": "Seeded exploration of write histories interleaved with checksum requests; cached checksums compared with recomputed ones, with the model's block list and with a twin fragment.",
             "note": "Hash collisions ignored; no re-implementation of the block hash (the implementation's own hasher is the reference for equal/different); samples histories of <=35 ops."},
     "C12": {"text": "Seeded exploration of write histories and cache configurations with simulated-clock control of the rank-cache damping window; reported counts compared with model row counts.",
